@@ -394,16 +394,20 @@ func c17Faults(g *G, n int, oneIn int) string {
 	var fl strings.Builder
 	for j := 0; j < n; j++ {
 		if g.Intn(oneIn) == 0 {
-			fl.WriteByte('1')
+			fl.WriteByte(c3FaultLetter(g))
 		} else {
 			fl.WriteByte('0')
 		}
+	}
+	if g.Intn(4) == 0 {
+		return "W" + fl.String()
 	}
 	return joinOr1(fl.String())
 }
 
 func genC17(g *G) {
 	genC17Outcome(g)
+	genC17Store(g)
 	// ---- filter: exhaustive small scopes. request = resource 1, destination 2
 	type dd struct{ d, r string }
 	full := []dd{{"2", "1"}, {"2", "2"}, {"3", "1"}, {"3", "2"}}
@@ -413,7 +417,7 @@ func genC17(g *G) {
 		if len(deps) == L {
 			g.Emit("filter", joinOr(deps, ","), "1", "2", joinOr1(st), "-")
 			for k := 0; k < 2*L; k++ {
-				g.Emit("filter", joinOr(deps, ","), "1", "2", joinOr1(st), strings.Repeat("0", k)+"1")
+				g.Emit("filter", joinOr(deps, ","), "1", "2", joinOr1(st), c3SingleFault(g, k))
 			}
 			return
 		}
@@ -560,7 +564,7 @@ func genC17(g *G) {
 	single := func(n int) []string {
 		out := []string{""}
 		for k := 0; k < n; k++ {
-			out = append(out, "@"+strings.Repeat("0", k)+"1")
+			out = append(out, "@"+c3SingleFault(g, k))
 		}
 		return out
 	}
